@@ -56,6 +56,13 @@ func VerifC10_Dispatch() {
 	if verifrt.Bool("wl.revisionChanged") {
 		c.Workload.CanaryRevision = "another-rev"
 	}
+	// a clean-up position left in the status by a continuous-release reset that was withdrawn half-way (the third
+	// revision was reverted): the workload is back on the revision being released, ordinary rolling goes on
+	if c.Workload.CanaryRevision == r.Status.GetCanaryRevision() && verifrt.Bool("st.staleCleanupCursor") {
+		step := v1beta1.FinalisingStepReleaseWorkloadControl
+		r.Status.GetSubStatus().FinalisingStep = step
+		c.NewStatus.GetSubStatus().FinalisingStep = step
+	}
 	cli := &symclient.Client{}
 	calls := &vCalls{}
 	c04StubTasks(calls)
@@ -120,6 +127,11 @@ func VerifC10_Dispatch() {
 			verifrt.Assert(err == nil && runs == 0 && cond.Reason == v1alpha1.ProgressingReasonFinalising, "C10.normal.completedEntersFinalising")
 		} else {
 			verifrt.Assert(runs == 1 && len(calls.names) == 0, "C10.normal.runsExactlyOneStep")
+		}
+		// a clean-up position left behind by a reset that was withdrawn half-way does not survive ordinary rolling: a
+		// later rollback or supersession starts its clean-up from the first task (traffic back on stable)
+		if err == nil {
+			verifrt.Assert(c.NewStatus.GetSubStatus().FinalisingStep == "", "C10.normal.noStaleCleanupCursorSurvivesOrdinaryRolling")
 		}
 	}
 }
